@@ -97,6 +97,18 @@ def loop_tail(l, inh, dflt):
         cur = nxt
 
 
+def source_of(l, inh, dflt, defines):
+    """the locale whose value l uses (Python restatement for tagging only)"""
+    seen, cur = [l], l
+    while not defines(cur):
+        nxt = inh.get(cur)
+        if nxt is None or nxt in seen:
+            return dflt
+        seen.append(nxt)
+        cur = nxt
+    return cur
+
+
 def resolution(l, inh, dflt, defines):
     if defines(l):
         return "own"
@@ -135,7 +147,7 @@ C03_DIMS = {
     "fork": ["no", "yes"],
     "ndefaulted": ["0", "1", "2", "3+"],
     "name_order": ["none", "self", "before_target", "after_target"],
-    "vkind": ["literal", "interpolated"],
+    "src_kind": ["literal", "interpolated", "empty", "ref_empty", "ref_text", "component"],   # the value the locale ends up using
     "listed": ["default_first", "default_not_first"],
     "build": ["normal", "suppress"],
 }
@@ -242,7 +254,8 @@ def c03_tags(p, build):
     for ns in (p["namespaces"] or ["-"]):
         d = p["files"]["%s/%s" % (ns, dflt)]
         for path, leaf in leaf_paths(d):
-            st = {l: node_at(p["files"]["%s/%s" % (ns, l)], path)[0] for l in order}
+            nodes = {l: node_at(p["files"]["%s/%s" % (ns, l)], path) for l in order}
+            st = {l: nodes[l][0] for l in order}
             for i, l in enumerate(order[1:]):
                 obs.append({
                     "state": st[l], "inh": walk_shape(l, inh, dflt),
@@ -256,7 +269,7 @@ def c03_tags(p, build):
                                    "before_target" if l.encode() < inh[l].encode() else "after_target"),
                     "pos": "second" if i == 0 else "later", "nloc": cap(len(order), 5),
                     "fork": "yes" if l in inh and any(x != l and inh.get(x) == inh[l] for x in order[1:]) else "no",
-                    "vkind": "interpolated" if mc.INTERPOLATED(leaf[1]) else "literal",
+                    "src_kind": mc.leaf_kind(nodes[source_of(l, inh, dflt, lambda x: st[x] == "defined")][1]),
                     "listed": listed, "build": build})
     return obs
 
@@ -402,7 +415,7 @@ def c03_build(rng, sc):
                 files["%s/%s" % (ns, nm)] = ["G", {"t": ["L", ids()]} if nm == D or rng.random() < 0.5 else {}]
                 continue
             if nm == D:
-                dd = nest(path, ["L", ids(sc["vkind"])], ids)
+                dd = nest(path, ["L", ids()], ids)
                 files["%s/%s" % (ns, nm)] = ["G", dd]
                 continue
             if nm == L:
@@ -416,6 +429,30 @@ def c03_build(rng, sc):
             else:
                 st = rng.choice(["defined", "null", "absent"])
             files["%s/%s" % (ns, nm)] = ["G", file_with_state(path, st, ids, rng)]
+    # the value the focus locale ends up using has the requested kind (in the locale it comes from)
+    src = {"own": L, "inherited_1": chain[0] if chain else None, "inherited_far": chain[1] if len(chain) > 1 else None}.get(sc["res"], D)
+    if src is None:
+        return None
+    fns = "-" if nss is None else "common"
+    kind = sc["src_kind"]
+    for nm in names:
+        t = files["%s/%s" % (fns, nm)][1]
+        want_empty = (kind == "ref_empty") if nm == src else rng.random() < 0.5
+        if nm == src and kind == "ref_text":
+            want_empty = False
+        t[mc.HELPER] = ["L", mc.EMPTY, ""] if want_empty else ["L", 800000 + ids()]
+    st = files["%s/%s" % (fns, src)]
+    node = st
+    for k in path[:-1]:
+        node = node[1].get(k)
+        if node is None or node[0] != "G":
+            return None
+    if path[-1] not in node[1] or node[1][path[-1]][0] != "L":
+        return None
+    if kind in ("literal", "interpolated"):
+        node[1][path[-1]] = ["L", ids(kind)]
+    else:
+        node[1][path[-1]] = mc.special_leaf(kind, fns, st[1][mc.HELPER][1])
     listed = list(order)
     if sc["listed"] == "default_not_first":
         if len(listed) == 1:
